@@ -14,7 +14,10 @@ import (
 	"net"
 	"os"
 	"strings"
+	"sync"
+	"sync/atomic"
 	"syscall"
+	"time"
 
 	"github.com/refraction-networking/conjure/pkg/station/lib"
 	"github.com/refraction-networking/conjure/pkg/station/log"
@@ -149,6 +152,10 @@ func main() {
 	if a.Replay != "" {
 		name = vh.LoadReplay(a.Replay)["scenario"].(string)
 	}
+	if name == "race" {
+		raceCompanion(a)
+		return
+	}
 	// scenario: "<up>|<down>|d<envbound>p<preemptbound>|dialfault"
 	parts := strings.Split(name, "|")
 	if len(parts) < 3 {
@@ -264,4 +271,84 @@ func main() {
 	vh.SelfCheck(name, mk)
 	r := vsched.Explore(vsched.Config{Name: name, PreemptBound: pB, EnvBound: dB, Deadline: a.Deadline(), MaxPoints: 5000}, mk)
 	vh.Emit(vh.FromSched(r))
+}
+
+// raceCompanion: the real Proxy free-running under the Go race detector on in-memory pipes: the client sends
+// three chunks and half-way through the covert side answers and one of the two sides closes first (alternating);
+// two tunnels run at once, as on a station.
+func raceCompanion(a *vh.Args) {
+	sel := vfix.Selector(vfix.SubnetsTOML)
+	rm := vfix.Manager(nil, sel, &vfix.Tester{}, vfix.Transports{Min: true}, nil)
+	m := vfix.Msg{Secret: vfix.Secret(90), Transport: pb.TransportType_Min, V4: true, Gen: 1, LibVer: 4, Covert: "93.184.216.34:443", Source: pb.RegistrationSource_API, Addr: []byte{203, 0, 113, 77}}
+	regs, err := rm.VerifParseRegMessage(m.Bytes())
+	if err != nil || len(regs) != 1 {
+		vh.Fatal("registration: %v", err)
+	}
+	reg := regs[0]
+	var mu sync.Mutex
+	var covertEnds []net.Conn
+	vnet.DialHook = func(network, address string) (net.Conn, error) {
+		a, b := net.Pipe()
+		mu.Lock()
+		covertEnds = append(covertEnds, b)
+		mu.Unlock()
+		go func() { // covert server: echo a little, then maybe close
+			buf := make([]byte, 4096)
+			for {
+				n, err := b.Read(buf)
+				if n > 0 {
+					if _, werr := b.Write(buf[:n/2+1]); werr != nil {
+						return
+					}
+				}
+				if err != nil {
+					b.Close()
+					return
+				}
+			}
+		}()
+		return a, nil
+	}
+	t0 := time.Now()
+	var n int64
+	for it := 0; time.Since(t0) < a.Budget/4; it++ {
+		var wg sync.WaitGroup
+		for k := 0; k < 2; k++ {
+			k := k
+			wg.Add(1)
+			go func() {
+				defer wg.Done()
+				cl, st := net.Pipe()
+				done := make(chan struct{})
+				go func() {
+					defer close(done)
+					var logbuf bytes.Buffer
+					lib.Proxy(reg, st, lib.VerifLogger(&logbuf, log.ErrorLevel))
+				}()
+				go io.Copy(io.Discard, cl)
+				for c := 0; c < 3; c++ {
+					if _, err := cl.Write(bytes.Repeat([]byte{byte('a' + c)}, 100+c)); err != nil {
+						break
+					}
+				}
+				if (it+k)%2 == 0 {
+					cl.Close()
+				} else {
+					mu.Lock()
+					for _, e := range covertEnds {
+						e.Close()
+					}
+					covertEnds = covertEnds[:0]
+					mu.Unlock()
+					time.Sleep(200 * time.Microsecond)
+					cl.Close()
+				}
+				<-done
+				atomic.AddInt64(&n, 1)
+			}()
+		}
+		wg.Wait()
+	}
+	vh.Emit(&vh.Out{Name: "race", Evaluations: n, Traces: n, Exhaustive: false, Cap: "free-running sample of schedules under the race detector (adjunct)", WallS: time.Since(t0).Seconds(),
+		Samples: []any{map[string]any{"iteration": "2 concurrent tunnels: client writes 3 chunks over net.Pipe, covert end echoes, client or covert closes first"}}})
 }
